@@ -81,17 +81,17 @@ Lemma step_wf s x : wf s ->
   (not_clear_framer x = true -> nms (attrs s CFramer) = None -> nms (attrs (fst (step s x)) CFramer) = None).
 Proof.
   unfold wf. intros Hw.
-  destruct x as [c nk pre orc|h nk pre orc|f n orc|nk pre orc|h|f|c|]; cbn [step not_clear_framer].
+  destruct x as [c nk pre orc|h nk pre orc|f n orc|f|nk pre orc|h|f|c|]; cbn [step not_clear_framer].
   - destruct (reg_same s c nk pre orc) as (E1 & E2 & E3 & E4). destruct (reg s c nk pre orc) as [s1 r]. cbn [fst] in *.
     assert (B : W (houses s1) (framers s1) (length (heap s1))) by (rewrite E1, E2, E3; exact Hw).
     destruct r; cbn [fst]; try (split; [exact B | intros _ H; rewrite E4; exact H]).
     destruct c; cbn [fst]; try (split; [exact B | intros _ H; rewrite E4; exact H]).
-    destruct (add_framer_shape s1 None) as (A1 & A2 & A3 & A4). cbn [fst]. rewrite A1, A2, A3, A4.
+    destruct (add_framer_shape s1 None) as (A1 & A2 & A3 & A4). cbn [fst note houses framers heap attrs]. rewrite A1, A2, A3, A4.
     split; [apply W_framer; exact B | intros _ H; rewrite E4; exact H].
   - destruct (reg_same s CFramer nk pre orc) as (E1 & E2 & E3 & E4). destruct (reg s CFramer nk pre orc) as [s1 r]. cbn [fst] in *.
     assert (B : W (houses s1) (framers s1) (length (heap s1))) by (rewrite E1, E2, E3; exact Hw).
     destruct r; cbn [fst]; try (split; [exact B | intros _ H; rewrite E4; exact H]).
-    destruct (add_framer_shape s1 (if (h <? length (houses s))%nat then Some h else None)) as (A1 & A2 & A3 & A4). cbn [fst]. rewrite A1, A2, A3, A4.
+    destruct (add_framer_shape s1 (if (h <? length (houses s))%nat then Some h else None)) as (A1 & A2 & A3 & A4). cbn [fst note houses framers heap attrs]. rewrite A1, A2, A3, A4.
     split; [apply W_framer; exact B | intros _ H; rewrite E4; exact H].
   - destruct (nth_error (framers s) f) as [fd|]; [|split; [exact Hw | auto]].
     destruct (nth_error (fhouse s) f) as [[h|]|]; try (split; [exact Hw | auto]).
@@ -109,8 +109,10 @@ Proof.
     destruct (add_framer_shape s2 (Some h)) as (A1 & A2 & A3 & A4).
     destruct (add_framer s2 (Some h)) as [s3 d]. cbn [fst] in *.
     match goal with |- context [clone_frames ?s4 ?l] => destruct (clone_frames_same l s4) as (F1 & F2 & F3 & F4) end.
-    rewrite F1, F2, F3, F4. cbn [set_attr houses framers heap attrs cls_eqb]. rewrite A1, A2, A3, A4.
+    rewrite F1, F2, F3, F4. cbn [set_attr note houses framers heap attrs cls_eqb]. rewrite A1, A2, A3, A4.
     split; [apply W_framer; exact B | intros _ H; apply N, H].
+  - destruct (nth_error (finfo s) f) as [[nm i]|]; cbn [fst]; [|split; [exact Hw | auto]].
+    cbn [set_heap houses framers heap attrs]. rewrite upd_length. split; [exact Hw | intros _ H; exact H].
   - destruct (reg_same s CHouse nk pre orc) as (E1 & E2 & E3 & E4). destruct (reg s CHouse nk pre orc) as [s1 r]. cbn [fst] in *.
     assert (B : W (houses s1) (framers s1) (length (heap s1))) by (rewrite E1, E2, E3; exact Hw).
     destruct r as [nm| | |]; cbn [fst]; try (split; [exact B | intros _ H; rewrite E4; exact H]).
